@@ -270,6 +270,7 @@ func TestC16Wire(t *testing.T) {
 		bits2 := genAccess(rt, "bits2").Defined()
 		bits3 := genAccess(rt, "bits3").Defined()
 		shadow := rapid.SampledFrom([]string{"", "./", "../", "/", "x/../"}).Draw(rt, "shadowSpelling")
+		caseEdit := rapid.Bool().Draw(rt, "editSpelledInOtherCase")
 		inWorld(rt, hlsim.Options{Accounts: []hlsim.AccountSpec{acct("seed", "Seed", "x", allAccess)}, Agreement: "a"}, func(rt *rapid.T, w *hlsim.World) {
 			var data []byte
 			if legacy {
@@ -311,6 +312,27 @@ func TestC16Wire(t *testing.T) {
 			if !bytes.Equal(got, bits2[:]) {
 				rt.Fatalf("after an administrator changed the privileges of the logged-in user from %x to %x the client was sent %x", bits[:], bits2[:], got)
 			}
+			// a further edit that spells the login in another letter case ("U" for "u"): whether the server takes it for the
+			// same account or refuses it, the session, the listing and the file end up with one and the same bitmap
+			sessionBits := bits2
+			if caseEdit {
+				c.TakeInbox()
+				r3 := admin.Request(hlref.TranSetUser, fld(hlref.FUserLogin, hlref.Obfuscate([]byte("U"))), sfld(hlref.FUserName, "U"), fld(hlref.FUserAccess, bits3[:]), fld(hlref.FUserPassword, []byte{0}))
+				for _, tr := range c.TakeInbox() {
+					if tr.Type == hlref.TranUserAccess {
+						d, _ := tr.Get(hlref.FUserAccess)
+						copy(sessionBits[:], d)
+					}
+				}
+				g := admin.Request(hlref.TranGetUser, sfld(hlref.FUserLogin, "u"))
+				var listed hlref.Access
+				d, _ := g.Get(hlref.FUserAccess)
+				copy(listed[:], d)
+				if !okReply(g) || listed != sessionBits {
+					rt.Fatalf("after a set-user request spelling the login \"U\" (reply %s) the account \"u\" is listed with %x while its logged-in session was last sent %x", replySummary(r3), listed[:], sessionBits[:])
+				}
+				bits2 = sessionBits
+			}
 			// ... and the account file says the same, under the privilege names - also after a creation request whose login
 			// is another spelling of this account's file name ("./u") with other privileges, whatever the server answers to it
 			if shadow != "" {
@@ -337,7 +359,7 @@ func TestC16Wire(t *testing.T) {
 		if legacy {
 			lab = "legacy"
 		}
-		ev.Case(evid.Hash(bits[:], legacy, bits2[:], bits3[:], shadow), len(definedSet(bits)) > 0, "wire:"+lab)
+		ev.Case(evid.Hash(bits[:], legacy, bits2[:], bits3[:], shadow, caseEdit), len(definedSet(bits)) > 0, "wire:"+lab)
 	})
 }
 
